@@ -215,3 +215,20 @@ Proof.
   intros H0 Hi Hj. destruct (wave_write_off s i v H0 Hi) as [Hr He].
   rewrite (wave_read_off _ j He Hj), Hr, Mem.gsspec, (wave_read_off _ j H0 Hj). reflexivity.
 Qed.
+
+(* C18: the four length registers stay writable while powered off (in fact in every state, whatever the power flag):
+   the write loads the length counter with 64 - t (256 - t for channel 3) *)
+Theorem length_writable s v :
+  sqLength (ch1 (apu_bus_write s 0xFF11 v)) = 64 - v mod 64 /\
+  sqLength (ch2 (apu_bus_write s 0xFF16 v)) = 64 - v mod 64 /\
+  (v < 256 -> wvLength (ch3 (apu_bus_write s 0xFF1B v)) = 256 - v) /\
+  nsLength (ch4 (apu_bus_write s 0xFF20 v)) = 64 - v mod 64.
+Proof.
+  change (apu_bus_write s 0xFF11 v) with (WriteNR11 s v). change (apu_bus_write s 0xFF16 v) with (WriteNR21 s v).
+  change (apu_bus_write s 0xFF1B v) with (WriteNR31 s v). change (apu_bus_write s 0xFF20 v) with (WriteNR41 s v).
+  unfold WriteNR11, WriteNR21, WriteNR31, WriteNR41. psimpl.
+  change 0x3f with (N.ones 6). rewrite N.land_ones. change (2 ^ 6) with 64.
+  assert (H : v mod 64 < 64) by (apply N.mod_lt; discriminate).
+  unfold sub8, sub16.
+  split; [clear - H; lia|]. split; [clear - H; lia|]. split; [intros Hv; clear - Hv; lia | clear - H; lia].
+Qed.
